@@ -191,3 +191,16 @@ async def retry_on_timeout(acc, coro_factory):
         acc.count("timeouts_retried")
         r = await coro_factory()
     return r
+
+
+def both_interpreter_modes(specs):
+    """Every shard twice: under the plain interpreter and under `python -O` (contracts guarded by __debug__ or written as
+    assert statements disappear there; a refusal the property promises must not)."""
+    out = []
+    for sp in specs:
+        if sp.get("kind") == "repo_tests":
+            out.append(sp)
+            continue
+        out.append(dict(sp, python_O=False))
+        out.append(dict(sp, name=sp.get("name", "") + "-O", python_O=True))
+    return out
